@@ -869,6 +869,8 @@ class ExecMixin:
         frame = self.stack[-1]
         if "set-order" in seq.flags:
             self.event("set-iteration", node, elem=seq.elem, seq=seq)
+            if self.explicit and (seq.fixed is None or len(seq.fixed) >= 2):
+                self.note_undecided("the iteration order of a set is unspecified (an implementation detail of hashing): a result that depends on it is not modelled", node)
         if seq.fixed is not None and len(seq.fixed) <= (30 if self.explicit else UNROLL) and seq.witness is None:
             # concrete unrolling: no token; the context only collects break/continue
             lid = self.site_id("unrolled", node)
